@@ -153,8 +153,16 @@ class Policy:
                 return "inline"  # a function of its arguments only (loops are summarised): no receiver state to keep modular
             return "ucall"
         if depth >= self.inline_depth:
-            return "ucall"
+            return "too-deep"
         return "inline"
+
+
+def subterms_safe(t):
+    from terms import subterms
+    try:
+        return list(subterms(t)) if isinstance(t, tuple) else []
+    except Exception:
+        return []
 
 
 def st_fill_probe(ex, st, changed):
@@ -877,6 +885,12 @@ class Exec:
         if k == "unop":
             a = self.operand(fr, st, rv["a"])
             if rv["op"] == "Not":
+                if rv.get("operand_ty", "bool") != "bool":
+                    # bitwise complement of an integer, not a logical negation: !0u8 is 255
+                    w_ = {"u8": 8, "u16": 16, "u32": 32, "u64": 64, "usize": 64}.get(rv.get("operand_ty"))
+                    if is_const(a) and w_ is not None and rv.get("operand_ty") != "usize":
+                        return C("int", (1 << w_) - 1 - int(a[2]))
+                    return ("bitnot", rv.get("operand_ty"), a)
                 return mk_not(a)
             if rv["op"] == "Neg":
                 if is_const(a):
@@ -1260,16 +1274,22 @@ class Exec:
                 st.steps = st.steps + (node,)
                 st.store.write(recv, ("post", node, ()))
                 res = ("ret", node)
+            elif how == "too-deep":
+                raise Unsupported("call chain deeper than the inlining bound (%d) at %s: the callee's effects are not followed" % (self.policy.inline_depth, name))
             else:
-                for a in args:
-                    if isinstance(a, tuple) and a[0] == "ref" and self._is_mut_ref(t, args.index(a)):
+                # an uninterpreted crate callee (a loopy `&self` scan): nothing through which it could write may be handed to it —
+                # looked for in the argument VALUES (a sub-slice, an iterator, an Option holding the borrow), as for std callees
+                for i_, a in enumerate(args):
+                    ty_ = self._arg_ty(t, i_)
+                    if ("&mut" in ty_ or "Mut<" in ty_ or "*mut" in ty_) and (self._borrows_state(st, a) or (isinstance(a, tuple) and a and a[0] == "ref")):
                         raise Unsupported("uninterpreted local call with &mut argument: " + name)
-                # the call reads the state behind its reference arguments as it is *now*: two calls around a store are different values
+                    inner_ = self.deref_val(st, a) if isinstance(a, tuple) and a and a[0] == "ref" and not isinstance(a[1][0], str) else a
+                    if any(isinstance(x_, tuple) and x_ and x_[0] in ("closure", "fn") for x_ in ([inner_] + list(subterms_safe(inner_)))):
+                        raise Unsupported("a closure / function is passed to an uninterpreted crate callee (%s): its effects are unknown" % name)
+                # the call reads the state behind its borrows as it is *now*: two calls around a store are different values
                 snap = []
-                for a in args:
-                    if isinstance(a, tuple) and a[0] == "ref" and isinstance(a[1][0], str):
-                        pre_ = a[1]
-                        snap.append(tuple(sorted(((pstr(k_), v_) for k_, v_ in st.store.m.items() if k_[:len(pre_)] == pre_), key=repr)))
+                for pre_ in self._borrowed_roots(st, args):
+                    snap.append(tuple(sorted(((pstr(k_), v_) for k_, v_ in st.store.m.items() if k_[:len(pre_)] == pre_), key=repr)))
                 res = ("ucall", g.label, tuple(args), len(st.steps)) + ((("at", tuple(snap)),) if any(snap) else ())
         elif cls == "user":
             res = ("get", callee["name"], args[0])
@@ -1764,8 +1784,8 @@ class Exec:
                 raise Unsupported("std call with &mut to state: " + name)
         for a in args:
             inner = self.deref_val(st, a) if isinstance(a, tuple) and a[0] == "ref" and not isinstance(a[1][0], str) else a
-            if isinstance(inner, tuple) and inner and inner[0] in ("closure", "fn"):
-                raise Unsupported("a closure / function is passed to an unmodelled callee (%s): its effects are unknown" % name)
+            if any(isinstance(x_, tuple) and x_ and x_[0] in ("closure", "fn") for x_ in ([inner] + subterms_safe(inner))):
+                raise Unsupported("a closure / function is passed to an unmodelled callee (%s), possibly inside an adaptor: its effects are unknown" % name)
         snap = []
         at = []
         for a in args:
